@@ -12,6 +12,10 @@ def main():
         import pool, check_me
         pool.build_pool_harness(s)
         check_me.build(s)
+        ov = vlib.make_overlay(s, "e2e-checksum", os.path.join(vlib.HARNESS, "e2e-checksum"), name="ovck")
+        vlib.go_test_build(s, "e2e-checksum", ".", ov, "checksum.test")
+        ov1 = vlib.make_overlay(s, "spanner_prober/prober", os.path.join(vlib.HARNESS, "spanner_prober_prober"), name="ovp1")
+        vlib.go_test_build(s, "spanner_prober", "./prober", ov1, "prober.test")
         print("setup ok")
     finally:
         s.cleanup()
